@@ -21,6 +21,9 @@ bdag = z3.Function('bdag', BoxS, BoxS)
 ob_l = z3.Function('ob_l', Ob, Ob)
 ob_r = z3.Function('ob_r', Ob, Ob)
 
+tyl = z3.Function('ty_l', TyS, TyS)      # left / right adjoint of a rigid type (reverses the order)
+tyr = z3.Function('ty_r', TyS, TyS)
+
 KINDS = {'Box': 0, 'Swap': 1, 'Cup': 2, 'Cap': 3, 'Sum': 4, 'Bubble': 5, 'Spider': 6, 'Layer': 7}
 
 EMPTY = z3.Empty(TyS)
